@@ -12,7 +12,7 @@ statement - against the implementation alone.
 import json
 
 STREAMS = ['mkrule', 'match-pairs', 'route-histories', 'client-histories', 'rule-text', 'bus-parse',
-           'proxy-gate', 'oracle-vs-spec']
+           'bus-histories', 'proxy-gate', 'oracle-vs-spec']
 THEOREMS = ['tables_current', 'mtypes_table_is_spec', 'match_eq_spec', 'namespace_is_component_prefix', 'route_exact',
             'route_independent_of_raising', 'invoked_exact_each_once', 'removed_never_invoked', 'ids_never_reused',
             'rule_text_roundtrip', 'client_text_means_constraints', 'bus_reads_what_the_text_means',
@@ -1659,6 +1659,184 @@ def derived_specs(kw):
     return out
 
 
+# ------------------------------------------------------------------------------------------ bus histories
+BUS_NAME = 'org.freedesktop.DBus'
+
+
+def gen_bus_history(rng, n_ops):
+    """Several connections to one real Bus: AddMatch, signals and disconnects interleaved.  A rule lives from its
+    AddMatch until its owner disconnects (or removes it)."""
+    specs = [gen_msg_spec(rng, 'signal') for _ in range(3)]
+    for sp in specs:
+        sp['destination'] = None          # broadcasts: delivery by match rules only (unicast is C14's subject)
+    ops = [['bconn'], ['bconn']]
+    n_conn = 2
+    for _ in range(n_ops):
+        q = rng.random()
+        if q < 0.10 and n_conn < 5:
+            ops.append(['bconn'])
+            n_conn += 1
+        elif q < 0.45:
+            mv = view(build_message(rng.choice(specs)))
+            kw = clean_kw(gen_rule_for(rng, mv, p_key=0.2, p_miss=0.2))
+            ops.append(['badd', rng.randrange(n_conn), kw])
+        elif q < 0.58:
+            ops.append(['bdisc', rng.randrange(n_conn)])
+        else:
+            spec = dict(rng.choice(specs)) if rng.random() < 0.85 else gen_msg_spec(rng, 'signal')
+            spec['destination'] = None
+            ops.append(['bsig', rng.randrange(n_conn), spec])
+    return ops
+
+
+def render_with_client(kw, _cache={}):
+    """The rule text the real client writes for kw."""
+    if 'conn' not in _cache:
+        _cache['conn'] = make_connection()
+    c, t = _cache['conn']
+    ckw = call_kw(kw)
+    if 'args' in ckw:
+        ckw['arg'] = ckw.pop('args')
+    if 'arg_paths' in ckw:
+        ckw['arg_path'] = ckw.pop('arg_paths')
+    c.addMatch(lambda m: None, **ckw).addErrback(lambda f: None)
+    return drain_calls(t)[0][1][0]
+
+
+def run_bus_history(ctx, ops):
+    """One history on a real Bus with real BusProtocol connections.  Oracle (implementation only): a broadcast signal
+    is delivered to a connection once per live rule of that connection it satisfies; a rule is live from the successful
+    AddMatch until its owner disconnects."""
+    from txdbus import bus, message, router
+    from twisted.internet.testing import StringTransport
+    from twisted.internet.protocol import Factory
+    from twisted.python.failure import Failure
+    from twisted.internet.error import ConnectionDone
+    saved = swap_log(router, LogSpy())
+    inp = {'stream': 'bus-histories', 'ops': ops}
+    lines, model_route = ['reset'], []      # model: the router with callback number = connection index
+    impl_route = []
+    try:
+        b = bus.Bus()
+        f = Factory()
+        f.protocol = bus.BusProtocol
+        f.bus = b
+        conns = []          # dict(p, got, alive, rules: [(kw, model id)])
+        next_model_id = 0
+        for op in ops:
+            if op[0] == 'bconn':
+                p = f.buildProtocol(None)
+                p.makeConnection(StringTransport())
+                p._authenticated = True
+                p.connectionAuthenticated()
+                got = []
+                p.sendMessage = got.append
+                hello = message.MethodCallMessage('/org/freedesktop/DBus', 'Hello', interface=BUS_NAME, destination=BUS_NAME)
+                p.dataReceived(hello.rawMessage)
+                if not (got and got[-1]._messageType == 2):
+                    raise HarnessReach('a bus connection did not get its Hello reply')
+                conns.append({'p': p, 'got': got, 'alive': True, 'rules': []})
+                continue
+            c = conns[op[1] % len(conns)]
+            ci = conns.index(c)
+            if op[0] == 'badd':
+                if not c['alive']:
+                    continue
+                kw = op[2]
+                text = render_with_client(kw)
+                del c['got'][:]
+                call = message.MethodCallMessage('/org/freedesktop/DBus', 'AddMatch', interface=BUS_NAME,
+                                                 destination=BUS_NAME, signature='s', body=[text])
+                c['p'].dataReceived(call.rawMessage)
+                ok = bool(c['got']) and c['got'][-1]._messageType == 2
+                ctx.stat('bus-history:addmatch-%s' % ('ok' if ok else 'refused'))
+                if ok:
+                    c['rules'].append((kw, next_model_id))
+                    lines.append('add %d %s' % (ci, enc_rule(kw)))
+                    next_model_id += 1
+            elif op[0] == 'bdisc':
+                if not c['alive']:
+                    continue
+                c['alive'] = False
+                try:
+                    c['p'].connectionLost(Failure(ConnectionDone()))
+                except Exception as e:
+                    ctx.stat('bus-history:disconnect-raises-%s' % type(e).__name__)
+                for _, mid in c['rules']:
+                    lines.append('del %d' % mid)
+                if any(x['alive'] and x['rules'] for x in conns):
+                    ctx.stat('bus-history:disconnect-while-others-hold-rules')
+            else:
+                if not c['alive']:
+                    continue
+                spec = op[2]
+                m = build_message(spec, parse=False)
+                mv = view(build_message(spec))
+                for x in conns:
+                    del x['got'][:]
+                escaped = None
+                try:
+                    c['p'].dataReceived(m.rawMessage)
+                except Exception as e:
+                    escaped = repr(e)
+                counts = []
+                for x in conns:
+                    counts.append(len([g for g in x['got'] if g._messageType == 4 and getattr(g, 'member', None) == spec['member']
+                                       and getattr(g, 'path', None) == spec['path']]))
+                lines.append('route . ' + enc_msg(mv))
+                model_route.append(len(lines) - 1)
+                impl_route.append(counts)
+                ctx.impl_trace()
+                if escaped:
+                    ctx.violation('exception-escapes-routing', 'a broadcast signal makes the bus raise %s' % escaped, inp=inp,
+                                  observed=escaped, expected='no exception')
+                    continue
+                # ---- oracle
+                for xi, x in enumerate(conns):
+                    want, undecided = 0, False
+                    if x['alive']:
+                        for kw, _ in x['rules']:
+                            v, _f = oracle_matches(kw, mv)
+                            if v is None:
+                                undecided = True
+                            elif v:
+                                want += 1
+                    if undecided:
+                        ctx.stat('bus-history:undecided')
+                        continue
+                    if counts[xi] == want:
+                        ctx.stat('bus-history:delivery-ok' + ('(>0)' if want else ''))
+                    elif not x['alive']:
+                        ctx.violation('bus-rule-of-disconnected-connection-fires',
+                                      'connection #%d disconnected, yet its match rules still forward a signal to it' % xi,
+                                      inp=inp, observed=counts, expected='nothing for #%d' % xi)
+                    elif counts[xi] < want:
+                        ctx.violation('bus-live-rule-not-delivered',
+                                      'connection #%d holds %d live rule(s) the signal satisfies (it never removed them and is '
+                                      'still connected) but receives the signal %d time(s)' % (xi, want, counts[xi]),
+                                      inp=inp, observed=counts, expected='%d for #%d' % (want, xi))
+                    else:
+                        ctx.violation('bus-signal-delivered-without-matching-rule',
+                                      'connection #%d receives the signal %d time(s) but only %d of its live rules match'
+                                      % (xi, counts[xi], want), inp=inp, observed=counts, expected='%d for #%d' % (want, xi))
+    finally:
+        restore_log(router, saved)
+    out = ctx.model(lines)
+    ctx.case('bus-histories', sample=inp)
+    if out is not None:
+        for li, counts in zip(model_route, impl_route):
+            body = out[li].split(' ')[0][4:]
+            mc = [0] * len(counts)
+            if body != '.':
+                for pr in body.split(','):
+                    cb = int(pr.split(':')[1])
+                    if cb < len(mc):
+                        mc[cb] += 1
+            if mc != counts:
+                ctx.disagree('bus-histories', inp, {'line': lines[li], 'deliveries': mc}, {'deliveries': counts})
+                break
+
+
 def gen_malformed(rng):
     keys = ['type', 'mtype', 'sender', 'interface', 'member', 'path', 'path_namespace', 'destination',
             'arg0', 'arg1', 'arg12', 'arg007', 'arg0path', 'arg3path', 'argpath', 'arg', 'argx', 'argxpath',
@@ -1952,7 +2130,7 @@ def probe_apostrophe(ctx):
         c.addMatch(lambda m: None, member="it's").addErrback(lambda f: None)
         text = drain_calls(t)[0][1][0]
         status, bkw, _, _ = bus_add(text)
-        ctx.note("apostrophe probe: addMatch(member=\"it's\") sends %r (unescaped); txdbus's own bus parses it as %r"
+        ctx.note("apostrophe probe: addMatch(member=\"it's\") sends %r; txdbus's own bus parses it as %r"
                  % (text, (bkw or {}).get('member') if status == 'ok' else status))
         c.addMatch(lambda m: None).addErrback(lambda f: None)
         text = drain_calls(t)[0][1][0]
@@ -1978,6 +2156,8 @@ def run_corpus_case(ctx, case):
         stream_text(ctx, [case['rule']], [])
     elif s == 'bus-parse':
         stream_text(ctx, [], [case['text']])
+    elif s == 'bus-histories':
+        run_bus_history(ctx, case['ops'])
     elif s == 'proxy-gate':
         stream_proxy(ctx, [case])
 
@@ -2086,6 +2266,11 @@ def run(ctx):
     malformed = ['', ',', '=', "a='b',", "type='signal',,path='/a'"] + \
                 [gen_malformed(rng) for _ in range(ctx.scale(quick=1000, thorough=10000))]
     guarded(ctx, ['rule-text', 'bus-parse'], lambda: stream_text(ctx, rules, malformed))
+
+    for _ in range(ctx.scale(quick=120, thorough=1200)):
+        bh_ = gen_bus_history(rng, rng.choice([8, 15, 30]))
+        if not guarded(ctx, ['bus-histories'], lambda: run_bus_history(ctx, bh_)):
+            break
 
     scs = [gen_proxy_scenario(rng) for _ in range(ctx.scale(quick=120, thorough=1200))]
     guarded(ctx, ['proxy-gate'], lambda: stream_proxy(ctx, scs))
